@@ -66,8 +66,10 @@ func genC01(r *Rng, tier string) *Plan {
 			P8: Pick(r, []string{"outer", "both"}), Pad: Pick(r, []string{"fixed", "fixed", "stripped", "extra"})}
 		if keyFamily(e.KeyAlg) == "rsa" {
 			fp.P8 = Pick(r, []string{"null", "noparams"})
+		} else if r.Chance(1, 3) {
+			fp.Point = "compressed" // as `openssl ec -conv_form compressed` leaves it (used for NIST curves only)
 		}
-		g.P.Add(Op{K: "replace-art", Ent: e.ID, Arg: fp.JSON(), Label: label + ":" + fp.Str})
+		g.P.Add(Op{K: "replace-art", Ent: e.ID, Arg: fp.JSON(), Label: label + ":" + fp.Str + fp.Point})
 		g.P.Meta["foreign"] = fp.Str
 	}
 	var roots, inner []*EntitySpec
